@@ -217,7 +217,7 @@ class profile_ctx:
         import warnings
         import biom.err as E
         self.E = E
-        self.cm = E.errstate(**{k: r for k, r in self.profile})
+        self.cm = E.errstate(**{k: r for k, r in self.profile})   # explicit kinds; `all` is expanded by the caller
         self.cm.__enter__()
         self.w = warnings.catch_warnings()
         self.w.__enter__()
@@ -701,14 +701,20 @@ def _verdict(ctx, case, r, res, tags):
         ctx.diverge(case, "result differs from the model", tags, detail={"real": res, "model": r["model"]})
 
 
-def gen_adjacency(rng, odd):
-    obs_pool = ["a", "b", "c", "d", "B", "aa"] + (["é1", "o 1", "x/y", "日本", "Z", "10", "2"] if odd else [])
-    samp_pool = ["s1", "s2", "s3", "S1", "s10"] + (["µ", "t|u", "s 2", "#s"] if odd else [])
+def gen_adjacency(rng, odd, wide=False):
+    obs_pool = ["a", "b", "c", "d", "B", "aa"] + (["é1", "o 1", "x/y", "日本", "Z", "10", "2", "a ", "a.", "A", "#a",
+                                                    "e\u0301", "a" * 30] if odd else [])
+    samp_pool = ["s1", "s2", "s3", "S1", "s10"] + (["µ", "t|u", "s 2", "#s", "s1 ", " s1", "s", "s1" * 12] if odd else [])
     no = rng.randint(1, 4)
     ns = rng.randint(1, 4)
     obs = rng.sample(obs_pool, no)
     samp = rng.sample(samp_pool, ns)
     k = rng.randint(1, 10)
+    if wide:
+        # many distinct names on one axis, listed in no particular order
+        obs = ["o%d" % i for i in range(rng.choice([64, 70, 100]))]
+        rng.shuffle(obs)
+        k = len(obs) + rng.randint(0, 20)
     lines = []
     for _ in range(k):
         c = rng.random()
@@ -720,7 +726,8 @@ def gen_adjacency(rng, odd):
             v = Fraction(rng.randint(-20, 20), rng.choice([2, 4, 8]))
         else:
             v = Fraction(-rng.randint(1, 5))
-        lines.append("%s\t%s\t%s" % (rng.choice(obs), rng.choice(samp), adj_text(v)))
+        o = obs[len(lines)] if wide and len(lines) < len(obs) else rng.choice(obs)
+        lines.append("%s\t%s\t%s" % (o, rng.choice(samp), adj_text(v)))
     if rng.random() < 0.5:
         lines.insert(0, "#OTU ID\tSampleID\tvalue")
     return lines
@@ -763,7 +770,8 @@ def run_uc(ctx, case, tags=(), cli=False):
     if cli:
         t, res = observe(lambda: uc_cli(text, ftext))
     elif fasta is None and case.get("api", "parse_uc") == "parse_uc":
-        t, res = observe(lambda: parse_uc(io.StringIO(text)))
+        src = io.StringIO(text) if case.get("src", "handle") == "handle" else [l + "\n" for l in case["lines"]]
+        t, res = observe(lambda: parse_uc(src))
     else:
         t, res = observe(lambda: _from_uc(io.StringIO(text), None if ftext is None else io.StringIO(ftext)))
     req = {"op": "uc", "lines": [uc_fields(l) for l in case["lines"]], "fasta": fasta, "result": res}
@@ -813,10 +821,10 @@ def uc_cli(text, ftext):
 UC_SAMPLES = ["f1", "f2", "f3_a", "x", "S.1", "f1_b"]
 
 
-def gen_uc(rng):
+def gen_uc(rng, wide=False):
     seeds = []   # seed labels seen so far
     lines = []
-    k = rng.randint(1, 12)
+    k = rng.randint(1, 12) if not wide else rng.choice([130, 160, 200])
     ctr = [0]
 
     def qlabel():
@@ -828,7 +836,7 @@ def gen_uc(rng):
         return "\t".join([ty, str(rng.randint(0, 3)), "133", "*" if ty != "H" else "99.0", "*" if ty != "H" else "+",
                           "*", "*", "*" if ty != "H" else "133M", extra_q, tgt])
     for _ in range(k):
-        c = rng.random()
+        c = rng.random() * (0.6 if wide else 1.0)   # wide: many seeds
         if c < 0.3 or not seeds:
             q = qlabel()
             ty = "S" if rng.random() < 0.75 else "L"
@@ -867,7 +875,11 @@ def gen_fasta(rng, seeds, how):
     seeds = list(dict.fromkeys(seeds))
     lines = []
     for i, s in enumerate(seeds):
-        lines.append(">otu%d %s%s" % (i, s, " extra words" if rng.random() < 0.3 else ""))
+        label = "otu%d" % i
+        if how == "long_labels":
+            # labels longer than every seed label, of different lengths (IDs live in fixed-width arrays)
+            label = "%s_relabelled_%s" % (s, "x" * (5 + 7 * i))
+        lines.append(">%s %s%s" % (label, s, " extra words" if rng.random() < 0.3 else ""))
         lines.append("ACGT" * rng.randint(1, 3))
     if how == "missing" and seeds:
         i = rng.randrange(len(seeds))
@@ -997,15 +1009,38 @@ MALFORMATIONS = ["dup_obs", "dup_samp", "few_obs", "many_obs", "few_samp", "many
                  "omd_short", "omd_long", "omd_nonmap", "smd_short", "smd_long", "smd_nonmap"]
 
 
-def malformed_case(ctx, rng, G, obs, samp, data, dense, kinds):
+def far_dup(ids):
+    ids = list(ids)
+    if len(ids) >= 3:
+        ids[-1] = ids[0]
+    return ids
+
+
+OTHER_PROFILES = [[["obsdup", "ignore"]], [["sampdup", "warn"]], [["obssize", "ignore"], ["sampsize", "ignore"]],
+                  [["obsmdsize", "print"]], [["sampmdsize", "call"]], [["all", "ignore"]], [["all", "warn"]],
+                  [["empty", "raise"], ["obsdup", "ignore"]]]
+
+
+def expand_profile(profile):
+    """`all=` sets every kind (the model takes explicit kinds)"""
+    out = []
+    for k, r in profile:
+        if k == "all":
+            out += [[kk, r] for kk in ("empty", "obsdup", "obsmdsize", "obssize", "sampdup", "sampmdsize", "sampsize")]
+        else:
+            out.append([k, r])
+    return out
+
+
+def malformed_case(ctx, rng, G, obs, samp, data, dense, kinds, far=False):
     """apply the malformations of `kinds` to a valid (grid, encoding, ids) triple"""
     n, m = len(G), len(G[0])
     obs2, samp2 = list(obs), list(samp)
     for k in kinds:
         if k == "dup_obs":
-            obs2, _ = corrupt_ids(rng, obs2, "dup", "O")
+            obs2 = far_dup(obs2) if far and len(obs2) >= 3 else corrupt_ids(rng, obs2, "dup", "O")[0]
         elif k == "dup_samp":
-            samp2, _ = corrupt_ids(rng, samp2, "dup", "S")
+            samp2 = far_dup(samp2) if far and len(samp2) >= 3 else corrupt_ids(rng, samp2, "dup", "S")[0]
         elif k in ("few_obs", "many_obs"):
             obs2, _ = corrupt_ids(rng, obs2, k.split("_")[0], "O")
         elif k in ("few_samp", "many_samp"):
@@ -1029,7 +1064,15 @@ def malformed_case(ctx, rng, G, obs, samp, data, dense, kinds):
     if not obs2 or not samp2:
         run_decode(ctx, {"op": "decode", "input": inp}, ("malformed", "empty-ids") + tuple(kinds))
         return
-    case = {"op": "construct", "input": inp, "grid": payload_rows(G), "n": n, "m": m}
+    if rng.random() < 0.12:
+        # a profile that changes the reaction to the fired kinds is outside the property (it speaks about the
+        # default profile): model/code agreement only
+        prof = rng.choice(OTHER_PROFILES)
+        run_decode(ctx, {"op": "decode", "input": inp, "variant": {"profile": expand_profile(prof), "shown": prof}},
+                   ("malformed", "other-profile") + tuple(kinds))
+        ctx.count("other-profile")
+        return
+    case = {"op": "construct", "input": inp, "grid": payload_rows(G), "n": n, "m": m, "variant": gen_variant(rng, 0.6)}
     tags = ["malformed"] + list(kinds)
     for md in (omd, smd):
         if md is not None and all(not e for e in md):
@@ -1110,7 +1153,10 @@ def run(ctx):
                 "subset of up to 3 of the 12 malformations (duplicate IDs, too few/many IDs, metadata too short/"
                 "long/non-mapping, per axis) applied to every form; adjacency and uc documents over small ID "
                 "alphabets with/without header, comments, blank lines, malformed lines, fasta renaming, the "
-                "from-uc command. non-trivial = grid with >= 2 cells and a non-zero value / document with >= 2 "
+                "from-uc command. hardening: argument variants (ID/metadata containers, rarely used keywords, empty-only profiles), "
+                "look-alike and long IDs, wide tables (>= 64 IDs), two tables from one argument object with in-place "
+                "operations on one of them, caller's values untouched after every call, layouts poked before ==. "
+                "non-trivial = grid with >= 2 cells and a non-zero value / document with >= 2 "
                 "lines; distinct = distinct case description")
     ctx.trusted = ["scipy/numpy conversions (coo->csr sums duplicates, tocsr/astype/vstack keep the dense content), "
                    "float() and str.split/strip are parameters with the contracts recorded in BiomModel/C17.lean",
@@ -1133,7 +1179,7 @@ def run(ctx):
     shapes = [(1, 1), (1, 3), (3, 1), (2, 2), (2, 3), (3, 2), (4, 3), (3, 5), (5, 5), (1, 5), (5, 1), (4, 4)]
     class_sets = [("count",), ("smallcount",), ("count", "dyadic", "neg"), ("dyadic",), ("neg",),
                   ("big", "tiny"), ("bits",), ("count", "big", "bits")]
-    n_groups = 60 if quick else max(60, 3200 // nw)
+    n_groups = 60 if quick else max(60, 2400 // nw)
     kept = []
     for g in range(n_groups):
         if g < len(shapes):
@@ -1145,8 +1191,20 @@ def run(ctx):
         if g % 5 == 4:
             classes = ("smallcount",)   # grids of 0/1/2/3: bool and int dtypes apply often
         full = (g % 3 == 0) or not quick
-        G, obs, samp, encs = forms_group(ctx, rng, n, m, classes, full, alphabet="mixed" if g % 2 else "ascii")
+        alphabet = "tricky" if g % 6 == 5 else ("mixed" if g % 2 else "ascii")
+        G, obs, samp, encs = forms_group(ctx, rng, n, m, classes, full, alphabet=alphabet)
         kept.append((G, obs, samp, encs))
+    # a few large cases (fast paths depending on sizes such as 64 IDs on an axis)
+    for g in range(2 if quick else max(2, 48 // nw)):
+        wide_n = rng.choice([64, 70, 100, 130])
+        other = rng.choice([2, 3, 4])
+        n, m = (other, wide_n) if g % 2 == 0 else (wide_n, other)
+        G, obs, samp, encs = forms_group(ctx, rng, n, m, ("smallcount",) if g % 2 else ("count", "dyadic"), False,
+                                         with_md=(g % 3 == 0), wide=True)
+        # a duplicate far away from its twin, a missing / surplus ID, metadata one entry short: per form
+        for data, dense in rng.sample(encs, min(4, len(encs))):
+            for kinds in (("dup_obs",), ("dup_samp",), ("few_samp",), ("many_obs",), ("omd_short",), ("smd_long",)):
+                malformed_case(ctx, rng, G, obs, samp, data, dense, kinds, far=True)
     # 0/1 grids so that the bool dtype forms are exercised
     for g in range(6 if quick else max(6, 400 // nw)):
         n, m = rng.randint(1, 4), rng.randint(1, 4)
@@ -1197,7 +1255,7 @@ def run(ctx):
         for mode in ("list", "list_nl", "tuple", "str", "str_nl", "file"):
             run_adjacency(ctx, {"op": "adjacency", "lines": lines, "mode": mode}, ("adjacency", "fixed"))
     for i in range(700 if quick else max(700, 48000 // nw)):
-        lines = gen_adjacency(rng, odd=(i % 3 == 0))
+        lines = gen_adjacency(rng, odd=(i % 3 == 0), wide=(i % 233 == 7))
         mode = rng.choice(["list", "list_nl", "tuple", "str", "str_nl", "file"])
         tags = ["adjacency"]
         if i % 5 == 0:
@@ -1213,18 +1271,19 @@ def run(ctx):
                          (["L\t0\t1\t*\t*\t*\t*\t*\tlib9\t*"], [">otu lib9"])):
         run_uc(ctx, {"op": "uc", "lines": lines, "fasta": fasta, "api": "_from_uc"}, ("uc", "fixed"))
     for i in range(700 if quick else max(700, 48000 // nw)):
-        lines, seeds = gen_uc(rng)
+        lines, seeds = gen_uc(rng, wide=(i % 233 == 11))
         tags = ["uc"]
         fasta = None
         c = i % 10
         if c in (3, 4, 5, 6):
-            how = ["all", "missing", "dup", "later_wins", "one_token", "unrelated", "empty"][rng.randrange(7)] if c != 3 else "all"
+            how = ["all", "missing", "dup", "later_wins", "one_token", "unrelated", "empty", "long_labels"][rng.randrange(8)] if c != 3 else "all"
             fasta = gen_fasta(rng, seeds, how)
             tags.append("fasta-" + how)
         if c == 7:
             lines, how = corrupt_uc(rng, lines)
             tags.append(how)
-        case = {"op": "uc", "lines": lines, "fasta": fasta, "api": "parse_uc" if i % 2 else "_from_uc"}
+        case = {"op": "uc", "lines": lines, "fasta": fasta, "api": "parse_uc" if i % 2 else "_from_uc",
+                "src": "list" if i % 4 == 1 else "handle"}
         run_uc(ctx, case, tags, cli=False)
         if i % (12 if quick else 40) == 0:
             run_uc(ctx, case, tags, cli=True)
@@ -1243,6 +1302,8 @@ def replay(ctx, rec):
         run_construct(ctx, case, ("replay",))
     elif op == "decode":
         run_decode(ctx, case, ("replay",))
+    elif op == "independent":
+        run_independent(ctx, case, ("replay",))
     elif op == "adjacency":
         run_adjacency(ctx, case, ("replay",))
     elif op == "uc":
